@@ -122,6 +122,8 @@ PROPS = {
             "fuzz_offset_big": dict(tc="fuzzbig", src="fuzz_targets.cpp", variants=["plain"], flags=["-DFUZZ_TARGET=2", "-DFUZZ_BIG"], libs=[]),
             "fuzz_rect": dict(tc="fuzz", src="fuzz_targets.cpp", variants=["plain"], flags=["-DFUZZ_TARGET=3"], libs=[]),
             "fuzz_rect_big": dict(tc="fuzzbig", src="fuzz_targets.cpp", variants=["plain"], flags=["-DFUZZ_TARGET=3", "-DFUZZ_BIG"], libs=[]),
+            "fuzz_rect_z": dict(tc="fuzz", src="fuzz_targets.cpp", variants=["z"], flags=["-DFUZZ_TARGET=3"], libs=[]),
+            "fuzz_misc_z": dict(tc="fuzz", src="fuzz_targets.cpp", variants=["z"], flags=["-DFUZZ_TARGET=4"], libs=[]),
             "fuzz_misc": dict(tc="fuzz", src="fuzz_targets.cpp", variants=["plain"], flags=["-DFUZZ_TARGET=4"], libs=[]),
             "fuzz_misc_big": dict(tc="fuzzbig", src="fuzz_targets.cpp", variants=["plain"], flags=["-DFUZZ_TARGET=4", "-DFUZZ_BIG"], libs=[]),
             "fuzz_export": dict(tc="fuzz", src="fuzz_targets.cpp", variants=["plain"], flags=["-DFUZZ_TARGET=5"], libs=[]),
@@ -139,6 +141,8 @@ PROPS = {
             dict(name="fuzz_offset_big", kind="fuzz", bin="fuzz_offset_big", corpus="fuzz_offset", workers={Q: 1, T: 1}, seconds={Q: 45, T: 900}),
             dict(name="fuzz_rect", kind="fuzz", bin="fuzz_rect", workers={Q: 1, T: 1}, seconds={Q: 45, T: 900}),
             dict(name="fuzz_rect_big", kind="fuzz", bin="fuzz_rect_big", corpus="fuzz_rect", workers={Q: 1, T: 1}, seconds={Q: 45, T: 900}),
+            dict(name="fuzz_rect_z", kind="fuzz", bin="fuzz_rect_z", corpus="fuzz_rect", workers={Q: 1, T: 1}, seconds={Q: 45, T: 900}),
+            dict(name="fuzz_misc_z", kind="fuzz", bin="fuzz_misc_z", corpus="fuzz_misc", workers={Q: 1, T: 1}, seconds={Q: 45, T: 900}),
             dict(name="fuzz_misc", kind="fuzz", bin="fuzz_misc", workers={Q: 1, T: 1}, seconds={Q: 45, T: 900}),
             dict(name="fuzz_misc_big", kind="fuzz", bin="fuzz_misc_big", corpus="fuzz_misc", workers={Q: 1, T: 1}, seconds={Q: 45, T: 900}),
             dict(name="fuzz_export", kind="fuzz", bin="fuzz_export", workers={Q: 1, T: 1}, seconds={Q: 45, T: 900}),
